@@ -62,7 +62,7 @@ WORKERS = {"quick": 16, "thorough": 16}
 REQUIRE = {"pairs_compared": 120, "pairs_nontrivial": 100, "handler_raises": 300, "scenarios_deterministic": 8,
            "events_raised_distinct": 17, "intervention_cases": 15, "intervention_raises": 15}
 MAX_INCONCLUSIVE_FRAC = 0.05
-CASE_BUDGET_S = 30.0      # only applies once a case has already produced a violation
+CASE_BUDGET_S = 20.0      # only applies once a case has already produced a violation
 
 _LOG = logging.getLogger("pynetdicom.events")
 
@@ -541,7 +541,9 @@ def _mask_specs(tier, seed, scn_name, side):
 def gen_cases(tier, seed):
     cases, unnamed = [], []
     names = LIFECYCLE_CANDIDATES + [s["name"] for s in OWN_SCENARIOS] + RACE_PROBE
-    block = 9 if tier == "quick" else 14
+    # quick: one case per (scenario, side) - the 3 baseline runs are cached per worker and scenario, so fewer, larger cases
+    # mean fewer baseline runs; thorough: blocks (the 'each' specs expand to many masks)
+    block = 100 if tier == "quick" else 14
     for name in names:
         for side in ("acc", "req", "both"):
             specs = _mask_specs(tier, seed, name, side)
@@ -555,11 +557,11 @@ def gen_cases(tier, seed):
             # that their keys stay separable
             if name not in RACE_PROBE:
                 unnamed.append({"part": "diff", "scenario": name, "side": side, "seed": seed,
-                                "specs": [{"t": "event", "ev": ev} for ev in r.sample(NOTIF, 2 if tier == "quick" else 8)],
+                                "specs": [{"t": "event", "ev": ev} for ev in r.sample(NOTIF, 1 if tier == "quick" else 8)],
                                 "kind": r.choice(KINDS_UNNAMED), "exc": r.choice(EXC_NAMES)})
     cases += intervention_cases(tier, seed)
     if tier == "quick":
-        unnamed = rng_for(seed, PID, "unnamed").sample(unnamed, 8)
+        unnamed = rng_for(seed, PID, "unnamed").sample(unnamed, 8)     # one event each: slow on a tree where they fail
     # last: on the unfixed tree these leave idle DUL threads behind in the worker (they run after everything else)
     return cases + unnamed
 
@@ -626,7 +628,11 @@ def extra_evidence(tier, results):
         events |= set(r.get("events") or [])
         if r.get("iv_key"):
             iv.add(r["iv_key"])
-    return {"distinct_nontrivial": len(pairs) + len(iv), "scenarios_deterministic": len(det - nondet),
+    slow = sorted(((r.get("wall", 0), (r.get("sample") or {}).get("scenario") or (r.get("sample") or {}).get("event"),
+                    (r.get("sample") or {}).get("side"), (r.get("sample") or {}).get("kind")) for r in results.values()),
+                  key=lambda x: -x[0])[:6]
+    return {"slowest_cases": slow, "total_case_wall_s": int(sum(r.get("wall", 0) for r in results.values())),
+            "distinct_nontrivial": len(pairs) + len(iv), "scenarios_deterministic": len(det - nondet),
             "scenarios_used": sorted(det - nondet), "scenarios_skipped_nondeterministic": sorted(nondet),
             "events_raised_distinct": len({e.split("/")[1] for e in events}),
             "side_events_raised": sorted(events), "intervention_distinct": len(iv)}
